@@ -43,6 +43,8 @@ type EnvCfg struct {
 	ClientIP      string
 	Port          int
 	HintMandatory bool
+	// ExtraPorts: the server also listens on these ports (same transport, same users).
+	ExtraPorts []int
 	// Both: the server listens on the port with both transports (clients use the one selected by UDP).
 	Both bool
 	// PreMTUC/PreMTUS: if non-zero the endpoints are first configured with
@@ -165,6 +167,11 @@ func NewEnv(cfg EnvCfg) (*Env, error) {
 		other := cfg
 		other.UDP = !cfg.UDP
 		eps = append(eps, protocol.NewUnderlayProperties(cfg.MTUS, other.transport(), other.serverAddr(), nil))
+	}
+	for _, port := range cfg.ExtraPorts {
+		other := cfg
+		other.Port = port
+		eps = append(eps, protocol.NewUnderlayProperties(cfg.MTUS, cfg.transport(), other.serverAddr(), nil))
 	}
 	e.Srv.SetEndpoints(eps)
 	if err := e.Srv.Start(); err != nil {
